@@ -370,11 +370,31 @@ func (fx *FnExec) callHavoc(in ssa.Instruction, c *ssa.CallCommon, args []Val, r
 				switch pi.elem.Underlying().(type) {
 				case *types.Pointer, *types.Map:
 					fx.adoptFresh("(i.pay " + r.S + ")")
+					if mt, isMap := pi.elem.Underlying().(*types.Map); isMap && fx.W.Contracts != nil {
+						for _, pe := range fx.W.Contracts.Lists["poolempty"] {
+							if pe == pi.global.Name() {
+								// pool invariant (checked at every Put site under C01): the map is empty
+								dom, _, l := fx.mapHeaps(mt)
+								m := "(i.pay " + r.S + ")"
+								fx.assume("(and (= (select " + dom + " " + m + ") ((as const (Array " + fx.sortOf(mt.Key()) + " Bool)) false)) (= (select " + l + " " + m + ") 0))")
+							}
+						}
+					}
 				case *types.Slice:
 					// payload is boxed; freshness of the backing array
 					u := fx.unbox(pi.elem, "(i.pay "+r.S+")")
 					fx.assume(fx.typeInvariant(pi.elem, u))
 					fx.adoptFresh("(s.arr " + u + ")")
+				}
+				// declared pool invariant (checked at every Put site and for New under C01)
+				if pc := fx.W.Contracts.ByName["pool "+pi.global.Name()]; pc != nil {
+					xv := Val{T: pi.elem, S: fx.unbox(pi.elem, "(i.pay "+r.S+")")}
+					env := &evalEnv{fx: fx, heap: fx.cur.heap, oldHeap: fx.cur.heap, names: map[string]Val{"x": xv}, gh: fx.cur.gh, oldGh: fx.cur.gh}
+					for _, inv := range pc.Requires {
+						if t, err := fx.evalC(inv.ast, env); err == nil {
+							fx.assume(t.S)
+						}
+					}
 				}
 				fx.usedAssumption("sync.Pool.Get returns an object of the pool's element type owned exclusively by the caller (arbitrary field values)")
 			}
